@@ -8,7 +8,7 @@ import itertools
 import math
 from typing import Any, Dict
 
-from .abseval import Unsupported, Obj, Mat, Vec, Sym, Lin
+from .abseval import Unsupported, Obj, Mat, Vec, Sym, Lin, OnceIter
 from .instances import Runtime, Instance, ExternalFunc
 
 
@@ -64,8 +64,8 @@ def install(rt: Runtime) -> Runtime:
             c[x] = c.get(x, 0) + 1
         return c
     ex["collections.Counter"] = fn(counter)
-    ex["itertools.combinations"] = fn(lambda seq, k: [tuple(c) for c in itertools.combinations(
-        sorted(seq) if isinstance(seq, (set, frozenset)) else list(seq), k)])
+    ex["itertools.combinations"] = fn(lambda seq, k: OnceIter([tuple(c) for c in itertools.combinations(
+        sorted(seq) if isinstance(seq, (set, frozenset)) else list(seq), k)]))
 
     def groupby(seq, key=None):
         out = []
